@@ -694,3 +694,42 @@ Print Assumptions allnumeric_bridge.
 Print Assumptions vcanon_idem.
 Print Assumptions store_src_reify.
 Print Assumptions store_src_reify_enough.
+
+(* ================= the observers of HeapExt.v are the pure models applied to what the heap holds ================= *)
+Section XObservers.
+  Variable fadd fmul fdiv : Z -> Z -> Z.
+  Variable of_int : Z -> Z.
+  Notation xsc := (xstep_core fadd fmul fdiv of_int).
+
+  (* aggregates: the model of Aggregates.v on the element sequence; the state is untouched *)
+  Theorem xagg_step : forall s a r id l, reg_list s r = Some (id, l) ->
+    xsc s (XLAgg a r) = (s, agg_model fadd fmul fdiv of_int a (map val_of_hscalar l)).
+  Proof. intros s a r id l H. cbn [xstep_core]. rewrite H. reflexivity. Qed.
+
+  (* String / NativeSlice / NativeDict denote the value tree of the container (members sorted), and change nothing *)
+  Theorem xstring_step : forall s r v t, nth_error (st_env s) r = Some v -> reify (fuel_of (st_heap s)) (st_heap s) v = Some t ->
+    xsc s (XString r) = (s, XRet (XTree (vcanon t))) /\ xsc s (XNative r) = (s, XRet (XTree (vcanon t))).
+  Proof. intros s r v t H R. cbn [xstep_core]. rewrite H, R. split; reflexivity. Qed.
+
+  (* FormatString: panics exactly outside 0..10, otherwise denotes the same data as String; never changes the state *)
+  Theorem xformat_step : forall s r n v t, nth_error (st_env s) r = Some v -> reify (fuel_of (st_heap s)) (st_heap s) v = Some t ->
+    xsc s (XFormat r n) = (s, if ((n <? 0) || (10 <? n))%Z then XPan else XRet (XTree (vcanon t))).
+  Proof. intros s r n v t H R. cbn [xstep_core]. rewrite H. destruct ((n <? 0) || (10 <? n))%Z; [reflexivity | rewrite R; reflexivity]. Qed.
+  Theorem xformat_panics_iff : forall s r n v t, nth_error (st_env s) r = Some v -> reify (fuel_of (st_heap s)) (st_heap s) v = Some t ->
+    (snd (xsc s (XFormat r n)) = XPan <-> (n < 0 \/ 10 < n)%Z).
+  Proof. intros s r n v t H R. rewrite (xformat_step s r n v t H R). cbn [snd].
+    destruct (n <? 0)%Z eqn:A; destruct (10 <? n)%Z eqn:B; cbn [orb]; split; intros X; try reflexivity; try discriminate X; try lia. Qed.
+
+  (* typed slices, typed ForEach logs, the All family: read off the element sequence, state untouched *)
+  Theorem xslicek_step : forall s k r id l, reg_list s r = Some (id, l) ->
+    xsc s (XLSliceK k r) = (s, XRet (XO (OVs (filter (sel_kind k) l)))) /\
+    xsc s (XLForEachK k r) = (s, XRet (XO (OVs (filter (sel_kind k) l)))) /\
+    xsc s (XLAll k r) = (s, XRet (XO (OB (forallb (sel_kind k) l)))).
+  Proof. intros s k r id l H. cbn [xstep_core]. rewrite H, filter_loop_spec. repeat split; reflexivity. Qed.
+End XObservers.
+
+Print Assumptions xagg_step.
+Print Assumptions xstring_step.
+Print Assumptions xformat_step.
+Print Assumptions xformat_panics_iff.
+Print Assumptions xslicek_step.
